@@ -1586,3 +1586,147 @@ Corollary C15_focus_events_wf : forall st w st' evs,
 Proof.
   intros st w st' evs Hu Hwf. apply C15_focus_events; [exact Hu|apply wf_focus_links; exact Hwf].
 Qed.
+
+(* ------------------------------------------------------------------------------------ *)
+(* 6. wf_focus is preserved                                                              *)
+
+Fixpoint t_map (F : winfo -> winfo) (t : wtree) : wtree :=
+  match t with Node i ch => Node (F i) (map (t_map F) ch) end.
+
+Lemma t_update_map : forall f z t,
+  t_update f z t = t_map (fun i => if w_id i =? z then f i else i) t.
+Proof.
+  intros f z. induction t as [i ch IH] using wtree_ind'.
+  cbn [t_update t_map]. f_equal.
+  induction IH as [|c r Hc Hr IHr]; [reflexivity|]. cbn [map]. rewrite Hc, IHr. reflexivity.
+Qed.
+
+Lemma t_map_comp : forall F G t, t_map G (t_map F t) = t_map (fun i => G (F i)) t.
+Proof.
+  intros F G. induction t as [i ch IH] using wtree_ind'.
+  cbn [t_map]. f_equal. rewrite map_map.
+  induction IH as [|c r Hc Hr IHr]; [reflexivity|]. cbn [map]. rewrite Hc, IHr. reflexivity.
+Qed.
+
+Lemma t_map_id : forall F t, (forall i, w_id (F i) = w_id i) -> t_id (t_map F t) = t_id t.
+Proof. intros F [i ch] HF. unfold t_id. cbn [t_map t_info]. apply HF. Qed.
+
+Lemma t_map_info : forall F t, t_info (t_map F t) = F (t_info t).
+Proof. intros F [i ch]. reflexivity. Qed.
+
+(* the local criterion: every node of the ORIGINAL tree, with its new link, finds a child
+   that is visible after the change *)
+Lemma wf_focus_map : forall F, (forall i, w_id (F i) = w_id i) ->
+  forall t,
+  (forall i ch, subtree (Node i ch) t -> forall k, w_fchild (F i) = Some k ->
+     exists c, In c ch /\ t_id c = k /\ w_vis (F (t_info c)) = true) ->
+  wf_focus (t_map F t).
+Proof.
+  intros F HF. induction t as [i ch IH] using wtree_ind'. intro Hloc.
+  cbn [t_map]. constructor.
+  - intros k Hk. destruct (Hloc i ch (sub_refl _) k Hk) as [c [Hin [Hid Hv]]].
+    exists (t_map F c). split; [apply in_map; exact Hin|].
+    split; [rewrite t_map_id by exact HF; exact Hid|rewrite t_map_info; exact Hv].
+  - rewrite Forall_forall in *. intros c' Hc'. apply in_map_iff in Hc'.
+    destruct Hc' as [c [Hc Hin]]. subst c'. apply IH; [exact Hin|].
+    intros j cs Hs. apply Hloc. eapply sub_kid; [exact Hin|exact Hs].
+Qed.
+
+(* wf_focus at every subtree *)
+Lemma wf_focus_subtree : forall s t, subtree s t -> wf_focus t -> wf_focus s.
+Proof.
+  intros s t Hs. induction Hs as [t|s c t Hin Hs IH]; intro Hwf; [exact Hwf|].
+  apply IH. destruct t as [i ch]. apply wf_focus_inv in Hwf. destruct Hwf as [_ Hch].
+  rewrite Forall_forall in Hch. apply Hch. exact Hin.
+Qed.
+
+Lemma wf_focus_node : forall t i ch k, wf_focus t -> subtree (Node i ch) t -> w_fchild i = Some k ->
+  exists c, In c ch /\ t_id c = k /\ w_vis (t_info c) = true.
+Proof.
+  intros t i ch k Hwf Hs Hk. pose proof (wf_focus_subtree _ _ Hs Hwf) as Hn.
+  apply wf_focus_inv in Hn. destruct Hn as [Hl _]. apply Hl. exact Hk.
+Qed.
+
+Lemma win_expose_tree : forall st id ex, r_tree (win_expose st id ex) = r_tree st.
+Proof.
+  intros st id ex. unfold win_expose.
+  destruct (t_chain id (r_tree st)) as [chain|]; [|reflexivity].
+  destruct (expose_up chain ex) as [d|]; [|reflexivity].
+  unfold root_damage. destruct (rs_contains rsfuel (r_damage st) d) as [[|]|]; try reflexivity.
+  destruct (rs_add rsfuel (r_damage st) d); reflexivity.
+Qed.
+
+Lemma request_restore_tree : forall st, r_tree (request_restore st) = r_tree st.
+Proof. reflexivity. Qed.
+
+(* --- win_close: no uniqueness needed --- *)
+
+Lemma t_upd_kids_info : forall f z t, t_info (t_upd_kids f z t) = t_info t.
+Proof. intros f z [i ch]. reflexivity. Qed.
+
+Lemma t_update_info_other : forall g z t, (forall i, w_id (g i) = w_id i) ->
+  t_id (t_update g z t) = t_id t.
+Proof.
+  intros g z [i ch] Hg. unfold t_id. cbn [t_update t_info].
+  destruct (w_id i =? z); [apply Hg|reflexivity].
+Qed.
+
+Definition clear_link (id : Z) (j : winfo) : winfo :=
+  if opt_eqb (w_fchild j) id then set_fchild j None else j.
+
+Lemma clear_link_id : forall id j, w_id (clear_link id j) = w_id j.
+Proof. intros id j. unfold clear_link. destruct (opt_eqb (w_fchild j) id); reflexivity. Qed.
+Lemma clear_link_vis : forall id j, w_vis (clear_link id j) = w_vis j.
+Proof. intros id j. unfold clear_link. destruct (opt_eqb (w_fchild j) id); reflexivity. Qed.
+
+Lemma close_tree_wf : forall id pid t, wf_focus t ->
+  wf_focus (t_update (clear_link id) pid (t_upd_kids (kids_remove id) pid t)).
+Proof.
+  intros id pid. induction t as [i ch IH] using wtree_ind'. intro Hwf.
+  apply wf_focus_inv in Hwf. destruct Hwf as [Hl Hch].
+  set (H := fun c => t_update (clear_link id) pid (t_upd_kids (kids_remove id) pid c)).
+  assert (Hid : forall c, t_id (H c) = t_id c).
+  { intro c. unfold H. rewrite t_update_info_other by apply clear_link_id.
+    unfold t_id. rewrite t_upd_kids_info. reflexivity. }
+  assert (Hvis : forall c, w_vis (t_info (H c)) = w_vis (t_info c)).
+  { intro c. unfold H. destruct (t_upd_kids (kids_remove id) pid c) as [j cs] eqn:Ec.
+    pose proof (t_upd_kids_info (kids_remove id) pid c) as Hi. rewrite Ec in Hi. cbn [t_info] in Hi.
+    cbn [t_update t_info]. destruct (w_id j =? pid); [rewrite clear_link_vis|]; rewrite Hi; reflexivity. }
+  cbn [t_upd_kids t_update].
+  rewrite Forall_forall in IH, Hch.
+  destruct (w_id i =? pid) eqn:Epid.
+  - constructor.
+    + intros k Hk. unfold clear_link in Hk.
+      destruct (opt_eqb (w_fchild i) id) eqn:Eo; [discriminate|].
+      destruct (Hl k Hk) as [c [Hin [Hcid Hcv]]].
+      exists (H c). split; [|split; [rewrite Hid; exact Hcid|rewrite Hvis; exact Hcv]].
+      unfold H. apply in_map. unfold kids_remove. apply filter_In.
+      split; [apply in_map; exact Hin|].
+      unfold t_id. rewrite t_upd_kids_info. fold (t_id c). rewrite Hcid.
+      rewrite Hk in Eo. cbn [opt_eqb] in Eo. rewrite Eo. reflexivity.
+    + rewrite Forall_forall. intros c' Hc'. apply in_map_iff in Hc'.
+      destruct Hc' as [c1 [Hc1 Hin1]]. unfold kids_remove in Hin1. apply filter_In in Hin1.
+      destruct Hin1 as [Hin1 _]. apply in_map_iff in Hin1. destruct Hin1 as [c [Hc Hin]].
+      subst c1 c'. apply IH; [exact Hin|apply Hch; exact Hin].
+  - constructor.
+    + intros k Hk. destruct (Hl k Hk) as [c [Hin [Hcid Hcv]]].
+      exists (H c). split; [|split; [rewrite Hid; exact Hcid|rewrite Hvis; exact Hcv]].
+      unfold H. apply (in_map (t_update (clear_link id) pid)). apply in_map. exact Hin.
+    + rewrite Forall_forall. intros c' Hc'. apply in_map_iff in Hc'.
+      destruct Hc' as [c1 [Hc1 Hin1]]. apply in_map_iff in Hin1. destruct Hin1 as [c [Hc Hin]].
+      subst c1 c'. apply IH; [exact Hin|apply Hch; exact Hin].
+Qed.
+
+Theorem wf_focus_win_close : forall cfg st id,
+  wf_focus (r_tree st) -> wf_focus (r_tree (win_close cfg st id)).
+Proof.
+  intros cfg st id Hwf. unfold win_close.
+  destruct (t_chain id (r_tree st)) as [[|w [|p rest]]|]; try exact Hwf.
+  cbn zeta.
+  match goal with |- wf_focus (r_tree (if ?b then win_expose ?s _ _ else ?s)) =>
+    assert (Ht : r_tree s = t_update (clear_link id) (t_id p)
+                              (t_upd_kids (kids_remove id) (t_id p) (r_tree st)));
+    [|destruct b; [rewrite win_expose_tree|]; rewrite Ht; apply close_tree_wf; exact Hwf]
+  end.
+  match goal with |- r_tree (if ?b then _ else _) = _ => destruct b end; reflexivity.
+Qed.
